@@ -11,76 +11,93 @@ import re
 import random
 
 
+def to_bytes(value) -> bytes:
+    """Convert value to bytes if necessary."""
+    return value.encode("utf-8") if isinstance(value, str) else value
+
+
+def quote(value: bytes) -> bytes:
+    """Escape value so it can be used inside a quoted-string."""
+    return value.replace(b"\\", b"\\\\").replace(b'"', b'\\"')
+
+
 class DigestMD5(object):
     def __init__(self, challenge, digesturi):
-        self.__digesturi = digesturi
+        self.__digesturi = to_bytes(digesturi)
         self.__challenge = challenge
 
         self.__params = {}
-        pexpr = re.compile(r'(\w+)="(.+)"')
-        for elt in base64.b64decode(challenge).split(","):
+        pexpr = re.compile(rb'(\w+)="(.+)"')
+        for elt in base64.b64decode(to_bytes(challenge)).split(b","):
             m = pexpr.match(elt)
             if m is None:
                 continue
             self.__params[m.group(1)] = m.group(2)
 
-    def __make_cnonce(self):
-        ret = ""
-        for i in xrange(12):
-            ret += chr(random.randint(0, 0xFF))
+    def __make_cnonce(self) -> bytes:
+        ret = bytes(random.randint(0, 0xFF) for i in range(12))
         return base64.b64encode(ret)
 
-    def __digest(self, value):
+    def __digest(self, value: bytes) -> bytes:
         return hashlib.md5(value).digest()
 
-    def __hexdigest(self, value):
+    def __hexdigest(self, value: bytes) -> bytes:
         return binascii.hexlify(hashlib.md5(value).digest())
 
-    def __make_response(self, username, password, check=False):
-        a1 = "%s:%s:%s" % (
-            self.__digest("%s:%s:%s" % (username, self.realm, password)),
-            self.__params["nonce"],
+    def __make_response(self, username, password, check=False, authz_id=b""):
+        a1 = b"%s:%s:%s" % (
+            self.__digest(b"%s:%s:%s" % (username, self.realm, password)),
+            self.__params[b"nonce"],
             self.cnonce,
         )
+        if authz_id:
+            a1 += b":" + authz_id
         if check:
-            a2 = ":%s" % self.__digesturi
+            a2 = b":%s" % self.__digesturi
         else:
-            a2 = "AUTHENTICATE:%s" % self.__digesturi
-        resp = "%s:%s:00000001:%s:auth:%s" % (
+            a2 = b"AUTHENTICATE:%s" % self.__digesturi
+        resp = b"%s:%s:00000001:%s:auth:%s" % (
             self.__hexdigest(a1),
-            self.__params["nonce"],
+            self.__params[b"nonce"],
             self.cnonce,
             self.__hexdigest(a2),
         )
 
         return self.__hexdigest(resp)
 
-    def response(self, username, password, authz_id=""):
-        self.realm = self.__params["realm"] if self.__params.has_key("realm") else ""
+    def response(self, username, password, authz_id="") -> str:
+        username = to_bytes(username)
+        password = to_bytes(password)
+        authz_id = to_bytes(authz_id)
+        self.__authz_id = authz_id
+        self.realm = self.__params[b"realm"] if b"realm" in self.__params else b""
         self.cnonce = self.__make_cnonce()
-        respvalue = self.__make_response(username, password)
+        respvalue = self.__make_response(username, password, authz_id=authz_id)
 
         dgres = (
-            'username="%s",%snonce="%s",cnonce="%s",nc=00000001,qop=auth,'
-            'digest-uri="%s",response=%s'
+            b'username="%s",%snonce="%s",cnonce="%s",nc=00000001,qop=auth,'
+            b'digest-uri="%s",response=%s'
             % (
-                username,
-                ('realm="%s",' % self.realm) if len(self.realm) else "",
-                self.__params["nonce"],
+                quote(username),
+                (b'realm="%s",' % quote(self.realm)) if len(self.realm) else b"",
+                quote(self.__params[b"nonce"]),
                 self.cnonce,
-                self.__digesturi,
+                quote(self.__digesturi),
                 respvalue,
             )
         )
         if authz_id:
-            if type(authz_id) is unicode:
-                authz_id = authz_id.encode("utf-8")
-            dgres += ',authzid="%s"' % authz_id
+            dgres += b',authzid="%s"' % quote(authz_id)
 
-        return base64.b64encode(dgres)
+        return base64.b64encode(dgres).decode("ascii")
 
-    def check_last_challenge(self, username, password, value):
-        challenge = base64.b64decode(value.strip('"'))
+    def check_last_challenge(self, username, password, value) -> bool:
+        username = to_bytes(username)
+        password = to_bytes(password)
+        challenge = base64.b64decode(to_bytes(value).strip().strip(b'"'))
         return challenge == (
-            "rspauth=%s" % self.__make_response(username, password, True)
+            b"rspauth=%s"
+            % self.__make_response(
+                username, password, True, authz_id=self.__authz_id
+            )
         )
